@@ -7,6 +7,8 @@ runs=${1:-1}
 cd /verif || exit 2
 work=$(mktemp -d /tmp/c17-demo-XXXXXX)
 trap 'rm -rf "$work"' EXIT
+base=$(./check.sh C17 --tier quick 2>&1 | grep '  signature:' | sed 's/  signature: //' | sort -u)
+echo "BASELINE (unchanged tree) signatures: $(echo $base | tr '\n' ';')"
 fail=0
 for d in h/c17/demo/mutants/*.diff; do
   name=$(basename "$d" .diff)
@@ -17,9 +19,9 @@ for d in h/c17/demo/mutants/*.diff; do
   h/c17/demo/build_with.sh "$work/$name/c17" "$rel" "$work/$name/$(basename "$rel")" || { echo "DEMO $name: build failed"; fail=1; continue; }
   for i in $(seq "$runs"); do
     out=$("$work/$name/c17" --tier quick -budget 6m 2>&1); rc=$?
-    sigs=$(echo "$out" | grep '  signature:' | sed 's/  signature: //' | tr '\n' ';')
-    echo "DEMO $name run $i: exit=$rc signatures: $sigs"
-    [ "$rc" = 1 ] || fail=1
+    sigs=$(echo "$out" | grep '  signature:' | sed 's/  signature: //' | sort -u | grep -vxF "$base" | tr '\n' ';')
+    echo "DEMO $name run $i: exit=$rc new signatures: $sigs"
+    [ "$rc" = 1 ] && [ -n "$sigs" ] || fail=1
   done
 done
 # restore the evidence file of the unchanged tree
